@@ -49,3 +49,74 @@ Definition c07_compared (c : vcase) : N :=
       N.of_nat (length (filter (comparable (c_code c)) paths))
   | _, _ => 0
   end.
+
+(* ---- C08: executed offsets vs the control-flow graph of the reference EVM ---- *)
+Definition succs (r : eres) : list estate := match r with ENext s => [s] | _ => [] end.
+Definition is_beyond (r : eres) : bool := match r with EBeyond _ => true | _ => false end.
+
+(* all offsets the reference EVM can execute when both outcomes of every JUMPI are possible;
+   None when the exploration budget runs out (loops) or an instruction outside the oracle is met *)
+Fixpoint explore (code : list byte) (fuel : nat) (work : list estate) (seen : list N) : option (list N) :=
+  match fuel with
+  | O => match work with [] => Some seen | _ => None end
+  | S f =>
+      match work with
+      | [] => Some seen
+      | s :: rest =>
+          match byte_at code (e_pc s) with
+          | None => explore code f rest seen
+          | Some b =>
+              let r1 := estep code false s in
+              if is_beyond r1 then None
+              else if b =? 87 then
+                let r2 := estep code true s in
+                if is_beyond r2 then None else explore code f (succs r2 ++ succs r1 ++ rest) (e_pc s :: seen)
+              else explore code f (succs r1 ++ rest) (e_pc s :: seen)
+          end
+      end
+  end.
+
+(* offsets a JUMP lands on: the JUMPDEST itself is stepped over, not executed, by design of Jump::execute *)
+Fixpoint landings (code : list byte) (fuel : nat) (work : list estate) (acc : list N) : list N :=
+  match fuel with
+  | O => acc
+  | S f =>
+      match work with
+      | [] => acc
+      | s :: rest =>
+          match byte_at code (e_pc s) with
+          | None => landings code f rest acc
+          | Some b =>
+              let r1 := estep code false s in
+              let acc' := if b =? 86 then match r1 with ENext s' => e_pc s' :: acc | _ => acc end else acc in
+              if b =? 87 then landings code f (succs (estep code true s) ++ succs r1 ++ rest) acc'
+              else landings code f (succs r1 ++ rest) acc'
+          end
+      end
+  end.
+
+Definition mem_N (x : N) (l : list N) : bool := existsb (N.eqb x) l.
+
+Definition c08_code (c : vcase) : N :=
+  match c_run c with
+  | XRun ok errs states jt retired queued polls =>
+      let bytes := c_code c in
+      let fuel := (64 * length bytes + 64)%nat in
+      match explore bytes fuel [e_init] [] with
+      | None => 0
+      | Some reach =>
+          (* push immediates are Nop entries the machine steps through; they are not instruction offsets *)
+          let imm := immediates 0 bytes in
+          let is_instr := fun o => negb (nth (N.to_nat o) imm false) in
+          let visited := filter is_instr (flat_map (fun st => map fst (filter (fun p => negb (snd p =? 0)) (snd st))) states) in
+          if negb (forallb (fun o => mem_N o reach) visited) then 50
+          else let land := landings bytes fuel [e_init] [] in
+               if negb (forallb (fun o => mem_N o visited || mem_N o land) reach) then 51 else 0
+      end
+  | XPanic _ => 52
+  | _ => 0
+  end.
+
+Definition check_c08 (c : vcase) : N := match c08_code c with 0 => corr_code c | n => n end.
+Definition c08_explored (c : vcase) : N :=
+  match explore (c_code c) (64 * length (c_code c) + 64)%nat [e_init] [] with Some r => 1 + N.of_nat (length r) | None => 0 end.
